@@ -1,6 +1,6 @@
 (** Properties_C01.v — C01: the WebDAV file server behaves like the RFC 4918
     resource-tree model.  Statements only, each closed by [exact]. *)
-From GW Require Import Base GoPath Fs DavServer Rfc4918 FsProofs DavRefine DavCorollaries.
+From GW Require Import Base GoPath Fs DavServer Rfc4918 FsProofs DavRefine DavCorollaries UploadSteps UploadStepsProofs CopySteps CopyStepsProofs.
 Local Open Scope list_scope.
 
 (** One request on any tree (any size, names, contents), any served root: the model
@@ -79,3 +79,47 @@ Theorem C01_copy_keeps_content : forall st n q,
   kind_of (geto (Some (copy_tree st n)) q) = kind_of (geto (Some n) q).
 Proof. exact abs_copy_tree. Qed.
 Print Assumptions C01_copy_keeps_content.
+
+(** * The recursive copy and the upload, OS call by OS call
+
+    [serve] maps the copied tree, resp. the uploaded file, in one step.  The Go code
+    does it entry by entry (filepath.Walk with Mkdir / copyRegularFile at
+    filepath.Join(dstPath, rel)), resp. through a temporary file.  For every source
+    tree whose listings are in the order the OS delivers them ([sorted_tree],
+    evaluated by the oracle on every tree of every run), every sandbox and every
+    destination the walk computes *exactly* (Leibniz equality of the whole sandbox)
+    the single step. *)
+Theorem C01_copy_walk_is_copy_tree : forall s dst st n,
+  sorted_tree n = true -> dst <> [] ->
+  geto s dst = None -> is_dir (geto s (removelast dst)) = true ->
+  copy_walk s dst st n true = seto s dst (copy_tree st n).
+Proof. exact copy_walk_is_copy_tree. Qed.
+Print Assumptions C01_copy_walk_is_copy_tree.
+
+Theorem C01_copy_walk_shallow : forall s dst st n,
+  copy_walk s dst st n false = seto s dst (copy_shallow st n).
+Proof. exact copy_walk_shallow. Qed.
+Print Assumptions C01_copy_walk_shallow.
+
+Theorem C01_copy_is_walk : forall root sb r dst recursive overwrite ss n ds created,
+  copy_move_checks root sb (rpath r) dst overwrite = GOk (ss, n, ds, created) ->
+  sorted_tree n = true ->
+  fst (do_copy root sb r dst recursive overwrite)
+  = match copy_walk (remo sb (hp root ds)) (hp root ds) (stamp r) n recursive with
+    | Some sb' => Some sb'
+    | None => sb
+    end.
+Proof. exact copy_is_walk. Qed.
+Print Assumptions C01_copy_is_walk.
+
+Theorem C01_put_is_upload : forall root sb r segs tmp chunks,
+  segs_of (rpath r) = GOk segs ->
+  req_cond r (match geto sb (hp root segs) with Some n => fi_etag (fi_of (dir_tag r) n) | None => ""%string end) = None ->
+  is_dir (geto sb (hp root segs)) = false -> segs <> [] ->
+  is_dir (geto sb (hp root (parent segs))) = true ->
+  geto sb (hp root (parent segs) ++ [tmp]) = None ->
+  (body_fails r = false -> concat_str chunks = body r) ->
+  snd (upload sb (hp root (parent segs)) tmp (last segs ""%string) (stamp r) chunks (body_fails r))
+  = fst (do_put root sb r).
+Proof. exact put_is_upload. Qed.
+Print Assumptions C01_put_is_upload.
